@@ -275,8 +275,7 @@ def success_implies_write(ck, m):
     # ---- C02.g -------------------------------------------------------------------------
     sbod = store_fn(m)
     nv_calls = [bi for bi, t in sbod.calls() if callee(t).endswith('bo::Change::next_version')]
-    ve_blocks = [bi for bi, bl in enumerate(sbod.blocks) if not bl.get('cleanup') for s in bl['s']
-                 if s['k'] == 'assign' and s['r']['k'] == 'agg' and s['r'].get('variant') == 'VersionError' and s['r'].get('adt', '').endswith('bo::Response')]
+    ve_blocks = [bi for bi, _op, _b in version_error_sites(m, sbod)]
     controlled = False
 
     def from_nv(body, op_, nvs):
@@ -364,6 +363,43 @@ def success_implies_write(ck, m):
               'entry\'s version (a tombstone keeps old+1), so a client that follows get-safe with set-safe is refused on every retry'
               % (short(b.id), bad), '%s:%s' % (b.file, b.line))
     ck.floor('C02.e', ng, 1, 'readers that build Response::Value from a map lookup')
+    # the value and the version of one reply come from ONE look at the entry: taken in two lock sections, a write that lands in
+    # between makes get-safe report the old value under the new version — the compare-and-set then overwrites a value the client never saw
+    from nl.locks import backward_slice
+    nb = 0
+    for b in m.prog.user_bodies():
+        if b.kind not in ('fn', 'method') or b.locals[0] != 'nundb::bo::Response' or not node_body(b):
+            continue
+        for bi2, bl in enumerate(b.blocks):
+            for s in bl['s']:
+                if not (s['k'] == 'assign' and s['r']['k'] == 'agg' and s['r'].get('adt', '').endswith('bo::Response') and s['r'].get('variant') == 'Value'
+                        and 'version' in s['r'].get('fields', []) and 'value' in s['r'].get('fields', [])):
+                    continue
+
+                def entry_sources(op_):
+                    out = set()
+                    for c in backward_slice(b, op_)[0]:
+                        tc = b.term(c)
+                        if tc['f'].get('dargs', '').startswith('std::collections::HashMap::<std::string::String, nundb::bo::Value>::get'):
+                            out.add(c)
+                        cb = m.prog.bodies.get(callee(tc))
+                        if cb is not None and cb.argc >= 1 and cb.locals[1].endswith('bo::Database') and any(
+                                'Database.map' in a.ids for a in locks.acquisitions(cb)):
+                            out.add(c)
+                    return out
+                sv = entry_sources(s['r']['ops'][s['r']['fields'].index('value')])
+                sn = entry_sources(s['r']['ops'][s['r']['fields'].index('version')])
+                if not sv and not sn:
+                    continue
+                nb += 1
+                ok = sv == sn or not sn or not sv
+                ck.ob('C02.e', short(b.id), 'value-and-version-from-one-lookup', ok,
+                      'the value and the version of the reply come from the same lookup of the entry' if ok else
+                      'the reply takes its value from %s and its version from %s — two separate looks at the entry (two lock sections): a write '
+                      'landing in between makes get-safe report the OLD value with the NEW version, and the set-safe the client then sends with '
+                      'that version overwrites a value it never read (a lost update between two compare-and-set clients)'
+                      % ([b.loc(x) for x in sorted(sv)], [b.loc(x) for x in sorted(sn)]), b.loc(bi2))
+    ck.floor('C02.e', nb, 1, 'Response::Value replies built from the entry')
 
 
 def node_body(b):
@@ -522,7 +558,7 @@ def _marker_value(m):
     vals = set()
     for _, t in sb.calls():
         cb = P.bodies.get(callee(t))
-        if cb is None or cb.locals[0] != 'bool' or cb.argc != 1 or not cb.locals[1].endswith('bo::Change'):
+        if cb is None or cb.locals[0] != 'bool' or not any(cb.locals[i].endswith('bo::Change') for i in range(1, cb.argc + 1)):
             continue
         stack, seen = [cb], set()
         while stack:
@@ -540,7 +576,7 @@ def _marker_value(m):
                                     vals.add(v)
             for _, t2 in x.calls():
                 c2 = P.bodies.get(callee(t2))
-                if c2 is not None and c2.locals[0] == 'bool' and c2.argc == 1:
+                if c2 is not None and c2.locals[0] == 'bool':
                     stack.append(c2)
     return vals
 
@@ -598,3 +634,35 @@ def marker_unforgeable(ck, m):
                       'store saves such a change as it comes (no comparison), so `set-safe k %s v` succeeds against any stored version, the '
                       'version falls to %s and every later write of the key is refused' % (missing, missing[0], missing[0]), b.loc(X))
     ck.floor('C02.h', n, 1, 'Set requests built with a version taken from the command text')
+
+
+def version_error_sites(m, sbod):
+    """where the store builds its refusal: [(block of the store, operand of the `state` field or None, body the operand lives in)] —
+    the aggregate itself, or the call of a private helper (`self.version_error(change, &old, state)`) that builds it, in which case
+    the operand is the call argument that the helper puts into the field"""
+    P = m.prog
+    out = []
+
+    def aggs(body):
+        for bi, bl in enumerate(body.blocks):
+            if bl.get('cleanup'):
+                continue
+            for s in bl['s']:
+                if s['k'] == 'assign' and s['r']['k'] == 'agg' and s['r'].get('variant') == 'VersionError' and s['r'].get('adt', '').endswith('bo::Response'):
+                    yield bi, s['r']
+    for bi, rv in aggs(sbod):
+        op = rv['ops'][rv['fields'].index('state')] if 'state' in rv.get('fields', []) else None
+        out.append((bi, op, sbod))
+    helpers = {h.id: h for h in P.private_helpers(sbod)}
+    for bi, t in sbod.calls():
+        hb = helpers.get(callee(t))
+        if hb is None or not hb.locals[0].endswith('bo::Response'):
+            continue
+        for hbi, rv in aggs(hb):
+            op = None
+            if 'state' in rv.get('fields', []):
+                for r in origins(hb, rv['ops'][rv['fields'].index('state')]):
+                    if r[0] == 'param' and 1 <= r[1] <= len(t['args']):
+                        op = t['args'][r[1] - 1]
+            out.append((bi, op, sbod))
+    return out
